@@ -53,15 +53,27 @@ class CFG:
     def block_of(self, node):
         """Block in which the node is evaluated (the node itself or its nearest ancestor /
         descendant that is a CFG element)."""
-        n = node
-        while n is not None:
-            if n.id in self.pos:
-                return self.pos[n.id][0]
-            n = n.parent
-        return None
+        p = self.index_of(node)
+        return p[0] if p is not None else None
 
     def index_of(self, node):
         n = node
+        while n is not None:
+            if n.id in self.pos:
+                return self.pos[n.id]
+            if n.k in ("WhileStmt", "ForStmt", "DoStmt", "IfStmt", "CompoundStmt", "SwitchStmt"):
+                break
+            n = n.parent
+        # a condition / wrapper expression that is not an element itself: the last of its sub-expressions that is
+        best = None
+        for d in node.walk():
+            if d.id in self.pos:
+                p = self.pos[d.id]
+                if best is None or p[0] == best[0] and p[1] > best[1]:
+                    best = p
+        if best is not None:
+            return best
+        n = node.parent
         while n is not None:
             if n.id in self.pos:
                 return self.pos[n.id]
@@ -317,6 +329,44 @@ class CFG:
 
     def loop_heads(self):
         return sorted(set(s for (_, _, s) in self.back_edges()))
+
+    def loop_branch(self, stmt):
+        """block whose terminator is the loop statement (evaluates the last operand of the condition)"""
+        for b in self.blocks.values():
+            if b.term is stmt:
+                return b.id
+        return None
+
+    def loop_header(self, stmt):
+        """block where an iteration starts (target of the back edges): for `while (A && B)` the block
+        evaluating A, not the one whose terminator is the while statement"""
+        for b in self.blocks.values():
+            if b.looptarget is stmt and b.succs and b.succs[0] is not None:
+                return b.succs[0]
+        br = self.loop_branch(stmt)
+        if br is None:
+            return None
+        # no dedicated loop-back block: walk back through the condition's short-circuit blocks
+        cond = stmt.child("cond")
+        cur = br
+        changed = True
+        while changed and cond is not None:
+            changed = False
+            for p in self.blocks[cur].preds:
+                pb = self.blocks[p]
+                if pb.term is not None and pb.term.within(cond) and p != cur:
+                    cur = p
+                    changed = True
+                    break
+        return cur
+
+    def loop_body_entry(self, stmt):
+        br = self.loop_branch(stmt)
+        if br is None:
+            return None
+        if stmt.k == "DoStmt":
+            return self.loop_header(stmt)
+        return self.blocks[br].succs[0]
 
     def loop_of_stmt(self, stmt):
         """(head block, body blocks) of the loop statement node (While/For/Do)."""
